@@ -523,7 +523,7 @@ class FuncCanon(object):
         changed = False
         for blk in _all_blocks(self.fn):
             top = blk is self.fn.body
-            if self.star(blk) or self.lockwith(blk) or self.flagloop(blk) or self.thread(blk) or self.deadstore(blk) or self.kw(blk) or self.split(blk) or self.retsplit(blk) or self.forelse(blk) or self.rot(blk) or self.brk(blk, top) or self.wtop(blk) or self.ifs(blk) or self.sink(blk) or self.unpack(blk) or self.fwd(blk):
+            if self.star(blk) or self.unroll(blk) or self.lockwith(blk) or self.flagloop(blk) or self.thread(blk) or self.deadstore(blk) or self.kw(blk) or self.split(blk) or self.retsplit(blk) or self.forelse(blk) or self.rot(blk) or self.brk(blk, top) or self.wtop(blk) or self.ifs(blk) or self.sink(blk) or self.unpack(blk) or self.fwd(blk):
                 return True
         return changed
 
@@ -602,6 +602,80 @@ class FuncCanon(object):
             if isinstance(n, ast.Lambda):
                 continue
             stack.extend(ast.iter_child_nodes(n))
+
+    # -- UNROLL ----------------------------------------------------------------------------------------------------
+    def unroll(self, blk):
+        """`for x in (a, b): B` -> `x = a; B; x = b; B`   (a literal sequence of at most four elements, B without
+        break / continue, no else).  Also a local list built by a display and (conditional) appends right before the loop:
+        `L = [a]; if c: L.append(b); for x in L: B` -> `x = a; B; if c: x = b; B`  (only the first element may contain a
+        call, so nothing with an effect changes its position relative to B)."""
+        for i, lp in enumerate(blk):
+            if not (isinstance(lp, ast.For) and not lp.orelse):
+                continue
+            if _contains_own(lp.body, ast.Break) or _contains_own(lp.body, ast.Continue):
+                continue
+            if any(isinstance(n, (ast.Yield, ast.YieldFrom)) for s_ in lp.body for n in ast.walk(s_)) and False:
+                continue
+            it = lp.iter
+            if isinstance(it, (ast.Tuple, ast.List)) and 1 <= len(it.elts) <= 4 and not any(isinstance(e, ast.Starred) for e in it.elts) \
+                    and not any(_has_call(e) for e in it.elts[1:]) and _size(lp.body) <= 8:
+                new = []
+                for e in it.elts:
+                    new.append(ast.copy_location(ast.Assign(targets=[copy.deepcopy(lp.target)], value=e), lp))
+                    new.extend(copy.deepcopy(lp.body))
+                blk[i:i + 1] = new
+                self.bump("UNROLL")
+                return True
+            if isinstance(it, ast.Name) and it.id not in self.params and it.id not in self.captured and len(self.loads.get(it.id, ())) >= 1 and _size(lp.body) <= 8:
+                L = it.id
+                # walk back over the statements that build L
+                j = i - 1
+                parts = []          # (condition or None, element)
+                ok = True
+                while j >= 0:
+                    st = blk[j]
+                    app = self._append_of(st, L)
+                    if app is not None:
+                        parts.append(app)
+                        j -= 1
+                        continue
+                    break
+                if j < 0:
+                    continue
+                st = blk[j]
+                if not (isinstance(st, ast.Assign) and len(st.targets) == 1 and isinstance(st.targets[0], ast.Name) and st.targets[0].id == L and isinstance(st.value, (ast.List, ast.Tuple))
+                        and not any(isinstance(e, ast.Starred) for e in st.value.elts)):
+                    continue
+                parts.reverse()
+                elems = [(None, e) for e in st.value.elts] + parts
+                n_loads = len(self.loads.get(L, ()))
+                if n_loads != 1 + len(parts) or len(self.stores.get(L, ())) != 1 or not (1 <= len(elems) <= 4):
+                    continue
+                if any(_has_call(e) or (c is not None and _has_call(c)) for c, e in elems[1:]):
+                    continue
+                new = []
+                for c, e in elems:
+                    seq = [ast.copy_location(ast.Assign(targets=[copy.deepcopy(lp.target)], value=e), lp)] + copy.deepcopy(lp.body)
+                    if c is None:
+                        new.extend(seq)
+                    else:
+                        new.append(ast.copy_location(ast.If(test=c, body=seq, orelse=[]), lp))
+                blk[j:i + 1] = new
+                self.bump("UNROLL")
+                return True
+        return False
+
+    def _append_of(self, st, L):
+        """`L.append(e)` or `if c: L.append(e)` -> (c or None, e)"""
+        cond = None
+        if isinstance(st, ast.If) and not st.orelse and len(st.body) == 1:
+            cond, st = st.test, st.body[0]
+        if isinstance(st, ast.Expr) and isinstance(st.value, ast.Call) and isinstance(st.value.func, ast.Attribute) and st.value.func.attr == "append" \
+                and isinstance(st.value.func.value, ast.Name) and st.value.func.value.id == L and len(st.value.args) == 1 and not st.value.keywords:
+            if cond is not None and any(isinstance(n, ast.Name) and n.id == L for n in ast.walk(cond)):
+                return None
+            return (cond, st.value.args[0])
+        return None
 
     # -- LOCKWITH --------------------------------------------------------------------------------------------------
     def lockwith(self, blk):
@@ -1350,7 +1424,9 @@ class Inliner(object):
         if any(d not in ("staticmethod",) for d in decs):
             return False
         for n, ins in _fn_nodes(fn):
-            if isinstance(n, (ast.Yield, ast.YieldFrom, ast.Global, ast.Nonlocal, ast.FunctionDef, ast.AsyncFunctionDef, ast.ClassDef, ast.Lambda)):
+            if isinstance(n, (ast.YieldFrom, ast.Global, ast.Nonlocal, ast.FunctionDef, ast.AsyncFunctionDef, ast.ClassDef, ast.Lambda)):
+                return False
+            if isinstance(n, ast.Yield) and not _simple_generator(fn):
                 return False
             if isinstance(n, ast.Call) and isinstance(n.func, ast.Name) and n.func.id in ("locals", "vars", "super"):
                 return False
@@ -1415,11 +1491,54 @@ class Inliner(object):
             done = True
         return done
 
+    def _inline_generator(self, cls, caller, cands, blk, i, st):
+        """`for x in self._gen(args): B` with a simple generator helper."""
+        if not (isinstance(st, ast.For) and not st.orelse and isinstance(st.iter, ast.Call)):
+            return False
+        m = self._match(st.iter, cls, caller, cands)
+        if m is None or m[0] is caller:
+            return False
+        h, recv = m
+        if not any(isinstance(n, ast.Yield) for n in ast.walk(h)) or isinstance(h, ast.AsyncFunctionDef):
+            return False
+        if _contains_own(st.body, ast.Break) or _contains_own(st.body, ast.Continue) or _size(st.body) > 8:
+            return False
+        pre, body, tag, fresh = self._prepare(caller, st.iter, h, recv, False)
+
+        def subst(stmts):
+            out = []
+            for s_ in stmts:
+                if isinstance(s_, ast.Expr) and isinstance(s_.value, ast.Yield):
+                    v = s_.value.value if s_.value.value is not None else ast.Constant(value=None)
+                    out.append(ast.copy_location(ast.Assign(targets=[copy.deepcopy(st.target)], value=v), st))
+                    out.extend(copy.deepcopy(st.body))
+                elif isinstance(s_, ast.If):
+                    s_.body = subst(s_.body) or [ast.copy_location(ast.Pass(), s_)]
+                    s_.orelse = subst(s_.orelse)
+                    out.append(s_)
+                elif isinstance(s_, ast.Return):
+                    raise Bail("return in a generator helper")
+                else:
+                    out.append(s_)
+            return out
+        new = pre + subst(body)
+        for s_ in new:
+            ast.fix_missing_locations(s_)
+        blk[i:i + 1] = new
+        _fresh_registry(caller).update(fresh)
+        return True
+
     def _inline_one(self, cls, caller, cands):
         for blk in _all_blocks(caller):
             for i, st in enumerate(blk):
                 if isinstance(st, (ast.FunctionDef, ast.AsyncFunctionDef, ast.ClassDef)):
                     continue
+                try:
+                    if self._inline_generator(cls, caller, cands, blk, i, st):
+                        self.stats["INLINE"] = self.stats.get("INLINE", 0) + 1
+                        return True
+                except Bail as e:
+                    self.log.append("INLINE skipped generator in %s: %s" % (caller.name, e))
                 hdr_calls = []
                 effects = []
                 for n, eager in eval_order(st) if not isinstance(st, (ast.While, ast.Try)) else ():
@@ -1628,6 +1747,32 @@ class Inliner(object):
             if isinstance(st, ast.ClassDef):
                 new = keep(st.body, st.name)
                 st.body[:] = new or [ast.Pass()]
+
+
+def _simple_generator(fn):
+    """A generator whose yields are plain statements outside any loop / try / with (at most four of them) and that returns
+    no value: `for x in gen(..): B` is then the generator's body with every `yield v` replaced by `x = v; B`."""
+    ny = 0
+
+    def ok(stmts):
+        nonlocal ny
+        for st in stmts:
+            if isinstance(st, ast.Expr) and isinstance(st.value, ast.Yield):
+                ny += 1
+                continue
+            if isinstance(st, ast.If):
+                if not ok(st.body) or not ok(st.orelse):
+                    return False
+                if any(isinstance(n, ast.Yield) for n in ast.walk(st.test)):
+                    return False
+                continue
+            if any(isinstance(n, (ast.Yield, ast.YieldFrom)) for n in ast.walk(st)):
+                return False
+            if isinstance(st, ast.Return) and st.value is not None:
+                return False
+        return True
+    body = fn.body
+    return ok(body) and 1 <= ny <= 4
 
 
 def _fresh_registry(fn):
